@@ -58,9 +58,13 @@ class FunctionResult:
         self.params = {}
         self.paths = 0
         self.assumptions = set()
+        self.pre_heap = {}
 
 
 def verify_function(prog, db, q, contract, case=None):
+    import itertools
+    from . import values as _V
+    _V._ctr = itertools.count()      # deterministic symbol names per function (solver behaviour depends on them)
     ex = Exec(prog, db)
     fr = FunctionResult(q)
     fi = prog.funcs.get(q)
@@ -103,6 +107,7 @@ def verify_function(prog, db, q, contract, case=None):
                 st.assume(ex.truth(ex.evs(a, st), st))
         pre = {'env': dict(st.env), 'heap': dict(st.heap), 'ver': dict(st.ver)}
         st.ghost['pre_state'] = pre
+        fr.pre_heap = dict(pre['heap'])
         o = ex.oblige(st, 'pre-sat', False, fi.node, text='precondition is satisfiable', expect='sat')
         outs = ex.exec_block(fi.node.body, st)
         rt = eval_type(contract.returns) if contract.returns is not None else None
@@ -127,6 +132,7 @@ def verify_function(prog, db, q, contract, case=None):
                         g = ex.truth(ex.evs(a, loc), loc)
                         s.pc[:] = loc.pc
                         ex.oblige(s, 'post', g, a, text='ensures ' + ast.unparse(a)[:140])
+                        s.assume(g)      # cut: later obligations of this path may use an ensures clause that has its own obligation
                 for exc, cl in raises.items():
                     if 'when' in cl.kw:
                         g = NOT(ex.truth(ex.evs(cl.kw['when'], loc), loc))
@@ -149,6 +155,12 @@ def verify_function(prog, db, q, contract, case=None):
         fr.degraded = str(u)
     except PyRaise as r:
         fr.degraded = 'uncaught model exception %s' % r.exc
+    except z3.Z3Exception as e:
+        fr.degraded = 'engine error (z3 sort mismatch while interpreting the code): %s' % (str(e)[:120],)
+    except (ImportError, KeyError, AttributeError, TypeError, IndexError, ValueError, AssertionError, NotImplementedError, RecursionError) as e:
+        import traceback
+        tb = traceback.extract_tb(e.__traceback__)[-1]
+        fr.degraded = 'engine error %s: %s (%s:%d)' % (type(e).__name__, str(e)[:100], tb.filename.rsplit('/', 1)[-1], tb.lineno)
     fr.obligations = ex.obls
     fr.assumptions = ex.assumptions
     return fr
